@@ -803,6 +803,12 @@ func (i *Interpreter) ProcessLog() error {
 		}
 	}
 
+	// vcl_log can refer bereq.* variables even though no backend request has been made
+	// (cache hit, error raised in vcl_recv), the client request stands in for it then
+	if i.ctx.BackendRequest == nil && i.ctx.Request != nil {
+		i.ctx.BackendRequest = i.ctx.Request.Clone(i.ctx.Request.Context())
+	}
+
 	// Simulate Fastly statement lifecycle
 	// see: https://developer.fastly.com/learning/vcl/using/#the-vcl-request-lifecycle
 	if sub, ok := i.ctx.Subroutines[context.FastlyVclNameLog]; ok {
